@@ -792,6 +792,8 @@ impl TypeSpace {
         format: &Option<String>,
         validation: Option<&StringValidation>,
     ) -> Result<(TypeEntry, &'a Option<Box<Metadata>>)> {
+        #[cfg(typify_verif)]
+        crate::verif::event("arm", || serde_json::json!("string"));
         match format.as_ref().map(String::as_str) {
             None => match validation {
                 // It should not be possible for the StringValidation to be
@@ -897,6 +899,8 @@ impl TypeSpace {
         enum_values: &[serde_json::Value],
         validation: Option<&StringValidation>,
     ) -> Result<(TypeEntry, &'a Option<Box<Metadata>>)> {
+        #[cfg(typify_verif)]
+        crate::verif::event("arm", || serde_json::json!("enum_string"));
         // We expect all enum values to be either a string **or** a null. We
         // gather them all up and then choose to either be an enum of simple
         // variants, or an Option of an enum of string variants depending on if
@@ -972,6 +976,8 @@ impl TypeSpace {
         validation: &Option<Box<schemars::schema::NumberValidation>>,
         format: &Option<String>,
     ) -> Result<(TypeEntry, &'a Option<Box<Metadata>>)> {
+        #[cfg(typify_verif)]
+        crate::verif::event("arm", || serde_json::json!("integer"));
         let (mut min, mut max, multiple) = if let Some(validation) = validation {
             let min = match (&validation.minimum, &validation.exclusive_minimum) {
                 (None, None) => None,
@@ -1175,6 +1181,8 @@ impl TypeSpace {
         _validation: &Option<Box<schemars::schema::NumberValidation>>,
         format: &Option<String>,
     ) -> Result<(TypeEntry, &'a Option<Box<Metadata>>)> {
+        #[cfg(typify_verif)]
+        crate::verif::event("arm", || serde_json::json!("number"));
         /*
         See https://github.com/oxidecomputer/typify/issues/169
         if let Some(validation) = validation {
@@ -1198,6 +1206,8 @@ impl TypeSpace {
         &self,
         metadata: &'a Option<Box<Metadata>>,
     ) -> Result<(TypeEntry, &'a Option<Box<Metadata>>)> {
+        #[cfg(typify_verif)]
+        crate::verif::event("arm", || serde_json::json!("null"));
         Ok((TypeEntryDetails::Unit.into(), metadata))
     }
 
@@ -1251,6 +1261,8 @@ impl TypeSpace {
         metadata: &'a Option<Box<Metadata>>,
         validation: &Option<Box<ObjectValidation>>,
     ) -> Result<(TypeEntry, &'a Option<Box<Metadata>>)> {
+        #[cfg(typify_verif)]
+        crate::verif::event("arm", || serde_json::json!("object"));
         match validation.as_ref().map(Box::as_ref) {
             // Maps have an empty properties set, and a non-null schema for the
             // additional_properties field.
@@ -1344,6 +1356,8 @@ impl TypeSpace {
         metadata: &'a Option<Box<Metadata>>,
         ref_name: &str,
     ) -> Result<(TypeEntry, &'a Option<Box<Metadata>>)> {
+        #[cfg(typify_verif)]
+        crate::verif::event("arm", || serde_json::json!("reference"));
         if !ref_name.starts_with('#') {
             panic!("external references are not supported: {}", ref_name);
         }
@@ -1365,6 +1379,8 @@ impl TypeSpace {
         metadata: &'a Option<Box<Metadata>>,
         subschemas: &[Schema],
     ) -> Result<(TypeEntry, &'a Option<Box<Metadata>>)> {
+        #[cfg(typify_verif)]
+        crate::verif::event("arm", || serde_json::json!("all_of"));
         debug!(
             "all_of {}",
             serde_json::to_string_pretty(subschemas).unwrap()
@@ -1452,6 +1468,8 @@ impl TypeSpace {
         metadata: &'a Option<Box<Metadata>>,
         subschemas: &'a [Schema],
     ) -> Result<(TypeEntry, &'a Option<Box<Metadata>>)> {
+        #[cfg(typify_verif)]
+        crate::verif::event("arm", || serde_json::json!("any_of"));
         // Rust can emit "anyOf":[{"$ref":"#/definitions/C"},{"type":"null"}
         // for Option. We match this here because the mutual exclusion check
         // below may fail for cases such as Option<T> where T is defined to be,
@@ -1540,6 +1558,8 @@ impl TypeSpace {
         metadata: &'a Option<Box<schemars::schema::Metadata>>,
         subschemas: &'a [Schema],
     ) -> Result<(TypeEntry, &'a Option<Box<Metadata>>)> {
+        #[cfg(typify_verif)]
+        crate::verif::event("arm", || serde_json::json!("one_of"));
         debug!(
             "one_of {}",
             serde_json::to_string_pretty(subschemas).unwrap()
@@ -1615,6 +1635,8 @@ impl TypeSpace {
         metadata: &'a Option<Box<schemars::schema::Metadata>>,
         subschema: &'a Schema,
     ) -> Result<(TypeEntry, &'a Option<Box<Metadata>>)> {
+        #[cfg(typify_verif)]
+        crate::verif::event("arm", || serde_json::json!("not"));
         match subschema {
             // This is a weird construct, but simple enough to handle.
             Schema::Bool(b) => {
@@ -1742,6 +1764,8 @@ impl TypeSpace {
         metadata: &'a Option<Box<Metadata>>,
         validation: &ArrayValidation,
     ) -> Result<(TypeEntry, &'a Option<Box<Metadata>>)> {
+        #[cfg(typify_verif)]
+        crate::verif::event("arm", || serde_json::json!("array"));
         match validation {
             // Tuples and fixed-length arrays satisfy the condition that the
             // max and min lengths are equal (and greater than zero). When
@@ -1857,6 +1881,8 @@ impl TypeSpace {
         &mut self,
         metadata: &'a Option<Box<Metadata>>,
     ) -> Result<(TypeEntry, &'a Option<Box<Metadata>>)> {
+        #[cfg(typify_verif)]
+        crate::verif::event("arm", || serde_json::json!("array_of_any"));
         self.uses_serde_json = true;
         let type_id = self.assign_type(TypeEntryDetails::JsonValue.into());
         Ok((TypeEntryDetails::Vec(type_id).into(), metadata))
@@ -1867,6 +1893,8 @@ impl TypeSpace {
         &self,
         metadata: &'a Option<Box<Metadata>>,
     ) -> Result<(TypeEntry, &'a Option<Box<Metadata>>)> {
+        #[cfg(typify_verif)]
+        crate::verif::event("arm", || serde_json::json!("bool"));
         Ok((TypeEntry::new_boolean(), metadata))
     }
 
@@ -1874,6 +1902,8 @@ impl TypeSpace {
         &mut self,
         metadata: &'a Option<Box<Metadata>>,
     ) -> Result<(TypeEntry, &'a Option<Box<Metadata>>)> {
+        #[cfg(typify_verif)]
+        crate::verif::event("arm", || serde_json::json!("permissive"));
         self.uses_serde_json = true;
         Ok((TypeEntryDetails::JsonValue.into(), metadata))
     }
@@ -1883,6 +1913,8 @@ impl TypeSpace {
         type_name: Name,
         schema: &'a Schema,
     ) -> Result<(TypeEntry, &'a Option<Box<Metadata>>)> {
+        #[cfg(typify_verif)]
+        crate::verif::event("arm", || serde_json::json!("never"));
         let ty = TypeEntryEnum::from_metadata(
             self,
             type_name,
@@ -1902,6 +1934,8 @@ impl TypeSpace {
         schema: &'a SchemaObject,
         enum_values: &[serde_json::Value],
     ) -> Result<(TypeEntry, &'a Option<Box<Metadata>>)> {
+        #[cfg(typify_verif)]
+        crate::verif::event("arm", || serde_json::json!("typed_enum"));
         let type_schema = SchemaObject {
             enum_values: None,
             ..schema.clone()
@@ -1948,6 +1982,8 @@ impl TypeSpace {
         metadata: &'a Option<Box<Metadata>>,
         enum_values: &[serde_json::Value],
     ) -> Result<(TypeEntry, &'a Option<Box<Metadata>>)> {
+        #[cfg(typify_verif)]
+        crate::verif::event("arm", || serde_json::json!("unknown_enum"));
         // We're here because the schema didn't have a type; that's a bummer,
         // but we'll do our best to roll with the punches.
         assert!(!enum_values.is_empty());
@@ -2032,6 +2068,8 @@ impl TypeSpace {
         metadata: &'a Option<Box<Metadata>>,
         schema: &'_ Schema,
     ) -> Result<(TypeEntry, &'a Option<Box<Metadata>>)> {
+        #[cfg(typify_verif)]
+        crate::verif::event("arm", || serde_json::json!("option"));
         let (ty, _) = self.convert_schema(type_name, schema)?;
         let ty = self.type_to_option(ty);
 
